@@ -77,6 +77,9 @@ def register(spec):
     # World.process as called by the loop: record (world, dt)
     spec.contracts[WS.W + 'process'].log_invocation = ('wplog', 'wp(self, dt)')
     spec.contracts[WS.W + 'process'].raises.setdefault('$OtherException', [])
+    # what a processor raises on purpose reaches the loop as such: Quit ends it, SwitchWorld is
+    # caught and served (one path each, with the exceptional postcondition of process)
+    spec.contracts[WS.W + 'process'].expand_other = [QUIT]
 
     q = L + 'SimpleLoop.'
     # dt of the k-th process call since this start: 0 first, then consecutive differences
